@@ -40,12 +40,17 @@ Unit == /\ l <= Len(Rec) /\ Rec[l].ev = "Unit" /\ l' = l + 1
                ls  == r.lists
                o   == r.obs
                bd  == Build(ls, 1, <<>>, <<>>, <<>>)
+               \* DIE offsets for the entry references: the model's unit layout, which the
+               \* offsets gimli reports for the DIEs it read back must confirm
+               offs == ModelOffs(enc, lp, Len(ls))
+               X(L) == Expand(L, enc, offs)
                named == \E i \in DOMAIN ls : NamedReject(ls[i].L, 1, HaveBase(lp), enc)
-               rej == \E i \in DOMAIN ls : MustReject(ls[i].L, enc, lp)
+               rej == \E i \in DOMAIN ls : MustReject(X(ls[i].L), enc, lp)
                faithful == /\ o.t = "ok" /\ Len(o.lists) = Len(ls)
+                           /\ o.dieoffs = offs
                            /\ \A i \in DOMAIN ls : o.lists[i].t = ls[i].fam
-                                                   /\ SameItems(o.lists[i].items, Meaning(ls[i].L, enc, lp, ls[i].fam))
-               w == WriteUnit(bd.rt, bd.lt, enc, lp)
+                                                   /\ SameItems(o.lists[i].items, Meaning(X(ls[i].L), enc, lp, ls[i].fam))
+               w == WriteUnit([i \in DOMAIN bd.rt |-> X(bd.rt[i])], [i \in DOMAIN bd.lt |-> X(bd.lt[i])], enc, lp)
            IN
            IF named THEN o.t = "err"
            ELSE IF rej THEN o.t = "err" \/ faithful
